@@ -44,14 +44,19 @@ structure Variant where
       connection they have just stamped with the current time at its sorted position of the normal list
       instead of the head (F11e repaired: the head is the wrong place after a backward clock jump) -/
   actSorted : Bool
+  /-- call_handlers only ever RAISES the daemon-wide `data_already_pending` flag
+      (`if (! flag) { if (PROCESS …) flag = true; }`): a connection without pending work that is handled
+      after one with pending work does not write it back to false -/
+  pendAccum : Bool
   deriving DecidableEq, Repr
 
 def Variant.current : Variant :=
   ⟨Mhd.Gen.Tmo.optSortedInsert, Mhd.Gen.Tmo.optWhileSuspended, Mhd.Gen.Tmo.stampAtProcess,
-   Mhd.Gen.Tmo.hintCmpSafe, Mhd.Gen.Tmo.selectSavesPrev, Mhd.Gen.Tmo.actSortedInsert⟩
+   Mhd.Gen.Tmo.hintCmpSafe, Mhd.Gen.Tmo.selectSavesPrev, Mhd.Gen.Tmo.actSortedInsert,
+   Mhd.Gen.Tmo.pendingAccumulates⟩
 
 /-- the pinned tree before any C10 repair -/
-def Variant.asIs : Variant := ⟨false, false, false, false, false, false⟩
+def Variant.asIs : Variant := ⟨false, false, false, false, false, false, true⟩
 
 /-- What the client has sent so far: nothing, a POST head plus body bytes (the handler has been
     called: `client_aware`), or a fragment of a request line (handler never called). -/
@@ -74,6 +79,12 @@ structure Conn where
   unread : Bool := false
   /-- the client has closed its end -/
   peerClosed : Bool := false
+  /-- number of those bytes (upload body bytes of a POST) -/
+  unreadN : Nat := 0
+  /-- unprocessed upload bytes in MHD's read buffer (`read_buffer_offset` in state BODY_RECEIVING) -/
+  buf : Nat := 0
+  /-- the scripted handler takes one upload byte per call and leaves the rest in the buffer -/
+  slow : Bool := false
   /-- the scripted handler suspends the connection at its next upload call -/
   wantSusp : Bool := false
   /-- epoll: MHD_EPOLL_STATE_READ_READY / _IN_EPOLL_SET / _ERROR -/
@@ -137,6 +148,10 @@ def Daemon.set (d : Daemon) (i : Id) (x : Conn) : Daemon :=
   { d with c := fun j => if j = i then x else d.c j }
 
 def Daemon.la (d : Daemon) (i : Id) : Nat := (d.c i).la
+
+/-- `MHD_EVENT_LOOP_INFO_PROCESS`: the connection has work that no socket event will announce
+    (here: upload data the handler has left in the read buffer) -/
+def procWait (c : Conn) : Bool := decide (c.buf > 0) && !c.closed && !c.suspended
 
 /-! ### the two functions that decide about a single connection -/
 
@@ -303,7 +318,7 @@ def cleanupConnection (d : Daemon) (i : Id) : Daemon :=
 /-- one iteration of `MHD_cleanup_connections`: the connection is freed (the client-side facts of
     the script survive in the record) -/
 def freeOne (d : Daemon) (i : Id) : Daemon :=
-  { (d.set i { kind := (d.c i).kind, peerClosed := (d.c i).peerClosed, wantSusp := (d.c i).wantSusp })
+  { (d.set i { kind := (d.c i).kind, peerClosed := (d.c i).peerClosed, wantSusp := (d.c i).wantSusp, slow := (d.c i).slow })
       with eready := without d.eready i, kq := without d.kq i }
 
 /-- `MHD_cleanup_connections`: from the tail of the cleanup list -/
